@@ -73,17 +73,44 @@ def paths_of(g, n_random, rng, default):
     return out
 
 
+def chains_of(g, default):
+    """Behaviours written by tlc -simulate (a forest of chains)."""
+    out = []
+    for s in g.init:
+        p, cur = [], s
+        while g.out.get(cur):
+            lab, d = g.out[cur][0]
+            p.append({"action": lab[0], "args": list(lab[1]), "values": values_of(g.nodes[d], default)})
+            cur = d
+        if p:
+            out.append(p)
+    return out
+
+
 def run(tier, seed):
     ctx = CheckContext("C19", tier, seed)
     ctx.invariants = ["Isolation", "StackShape", "Restored", "NoCrossTalk"]
     rng = random.Random(seed)
     total_paths = total_steps = 0
+    # design level, unbounded: TLAPS proves the four properties for any number of executions, nesting depth and history
+    # length (spec/PhystConfigProof.tla, inductive invariant Linked); TLC and the runtime executions below are bounded
+    from lib.tlaps import run_tlapm
+    ctx.extra["tlaps"] = run_tlapm("PhystConfigProof")
     suffix = "q" if tier == "quick" else "t"
     for kind in ("thread", "task"):
         for dflag, env in ((False, None), (False, "0"), (True, "1")):
             cfg = f"MC_Config_{kind}{'T' if dflag else 'F'}_{suffix}"
-            _res, g = ctx.model_check("PhystConfig", cfg, required_actions=REQ)
-            paths = paths_of(g, 150 if tier == "quick" else 6000, rng, dflag)
+            if tier == "quick":
+                _res, g = ctx.model_check("PhystConfig", cfg, required_actions=REQ)
+                paths = paths_of(g, 150, rng, dflag)
+            else:
+                # the deep model is checked by TLC only (its graph is too large to walk edge by edge); the runtime executes an edge
+                # cover of the mid model (nesting 3, 5 steps) and TLC-simulated behaviours of the deep one (nesting 3, 7 steps)
+                ctx.model_check("PhystConfig", cfg, dump=False)
+                _res, g = ctx.model_check("PhystConfig", cfg[:-1] + "m", required_actions=REQ)
+                paths = paths_of(g, 1000, rng, dflag)
+                gs = ctx.simulate("PhystConfig", cfg, num=1500, depth=8)
+                paths += chains_of(gs, dflag)
             sc = scratch_dir("C19")
             inp, outp = os.path.join(sc, "in.json"), os.path.join(sc, "out.json")
             json.dump({"kind": kind, "paths": paths, "names": ["main", "a", "b", "c"], "root": "main"}, open(inp, "w"))
